@@ -261,6 +261,14 @@ def _map_to_station_ids(
                     for station_id in sim.s_search[search_geoid]
                 )
 
+                if res > sim.sim_h3_search_resolution:
+                    # the named region is finer than a search cell: keep only the stations inside it
+                    station_ids = (
+                        station_id
+                        for station_id in station_ids
+                        if h3.h3_to_parent(sim.stations[station_id].geoid, res) == k
+                    )
+
                 # all of these station ids should get entries managers the provided geoid
                 for station_id in station_ids:
                     updated.update({station_id: this_update[k]})
